@@ -50,3 +50,71 @@ package errors
 //@   trusted
 //@   pure
 //@   ensures result > 0
+
+// ---- the documented exit codes -------------------------------------------------------------------------------
+// Each error class ends the invocation with ITS status (the documented table covers 100-107 and 200-207; 108-110 are as
+// the code has always defined them): scripts and CI jobs branch on
+// the number. The classes the properties name: 100 Taskfile not found, 102 decode, 103 fetch failed, 104 not trusted,
+// 105 not secure, 106 cache not found, 107 version check, 108 network timeout, 109 invalid, 110 include cycle,
+// 200 task not found, 202 internal task, 203 name conflict / ambiguous alias, 204 called too many times,
+// 205 cancelled at the prompt, 206 required variable missing, 207 value not allowed.
+//@ func (*TaskfileDecodeError).Code
+//@   pure
+//@   ensures result == 102                                                         [C16]
+//@ func (*TaskNotFoundError).Code
+//@   pure
+//@   ensures result == 200                                                         [C15]
+//@ func (*TaskInternalError).Code
+//@   pure
+//@   ensures result == 202                                                         [C13,C15]
+//@ func (*TaskNameConflictError).Code
+//@   pure
+//@   ensures result == 203                                                         [C15,C08]
+//@ func (*TaskNameFlattenConflictError).Code
+//@   pure
+//@   ensures result == 203                                                         [C08]
+//@ func (*TaskCalledTooManyTimesError).Code
+//@   pure
+//@   ensures result == 204                                                         [C07]
+//@ func (*TaskCancelledByUserError).Code
+//@   pure
+//@   ensures result == 205                                                         [C13]
+//@ func (*TaskCancelledNoTerminalError).Code
+//@   pure
+//@   ensures result == 205                                                         [C13]
+//@ func (*TaskMissingRequiredVarsError).Code
+//@   pure
+//@   ensures result == 206                                                         [C13]
+//@ func (*TaskNotAllowedVarsError).Code
+//@   pure
+//@   ensures result == 207                                                         [C13]
+//@ func (TaskfileNotFoundError).Code
+//@   pure
+//@   ensures result == 100                                                         [C08,C16]
+//@ func (TaskfileAlreadyExistsError).Code
+//@   pure
+//@   ensures result == 101                                                         [C19]
+//@ func (TaskfileInvalidError).Code
+//@   pure
+//@   ensures result == 109                                                         [C16]
+//@ func (TaskfileFetchFailedError).Code
+//@   pure
+//@   ensures result == 103                                                         [C20]
+//@ func (*TaskfileNotTrustedError).Code
+//@   pure
+//@   ensures result == 104                                                         [C20]
+//@ func (*TaskfileNotSecureError).Code
+//@   pure
+//@   ensures result == 105                                                         [C20]
+//@ func (*TaskfileCacheNotFoundError).Code
+//@   pure
+//@   ensures result == 106                                                         [C20]
+//@ func (*TaskfileVersionCheckError).Code
+//@   pure
+//@   ensures result == 107                                                         [C08]
+//@ func (*TaskfileNetworkTimeoutError).Code
+//@   pure
+//@   ensures result == 108                                                         [C20]
+//@ func (TaskfileCycleError).Code
+//@   pure
+//@   ensures result == 110                                                         [C08]
